@@ -148,3 +148,58 @@ func Verif_C08_Q3_InFlightWrite() {
 	}
 	vnd.Observe("q3", uint64(absWritten-x.bl.released+100), uint64(absCorrupt-x.bl.released+100))
 }
+
+// Verif_C08_Q4_VerdictAfterRotation: a read may be held open for arbitrarily long.
+// When its negative verdict finally arrives - after other uploads have allocated
+// space and rotated the block list - the quarantine still ends at the block the
+// object was READ FROM (identified at the time the getter was obtained): no
+// healthy newer block is taken out of service, none at or below it is spared.
+func Verif_C08_Q4_VerdictAfterRotation() {
+	maxO := 1
+	if vnd.Thorough() {
+		maxO = 2
+	}
+	x := verifNewOCNProfile(maxO, false)
+	L := len(x.bl.space)
+	if L == 0 {
+		vnd.Cover("empty")
+		return
+	}
+	i := vnd.Choose(L)
+	absRead := x.bl.released + i
+	getter, _ := x.lbm.Get(Location{BlockIndex: i, OffsetBytes: 0, SizeBytes: 1})
+	b := getter(verifSomeDigest)
+	cb := x.bl.lastCB
+	releasedAtGet := x.bl.released
+	for k := vnd.Choose(3); k > 0; k-- {
+		_, err := x.lbm.Put(int64(vnd.Int(0, 64)))
+		vnd.Assert(err == nil, "allocation failed although the block list works")
+	}
+	if x.bl.released > releasedAtGet {
+		vnd.Cover("rotated-while-read-open")
+	}
+	b.Discard()
+	before := x.lbm.totalBlocksToBeReleased.Load()
+	logged := x.logger.n
+	cb(false)
+	want := uint64(absRead + 1)
+	if before > want {
+		vnd.Cover("verdict-for-released-block")
+		want = before
+		vnd.Assert(x.logger.n == logged, "a verdict for a block that is already being released was logged as a new release")
+	} else if before < want {
+		vnd.Cover("verdict-extends-release")
+		vnd.Assert(x.logger.n == logged+1, "quarantine not logged exactly once")
+	}
+	vnd.Assert(x.lbm.totalBlocksToBeReleased.Load() == want, "after a late negative verdict the release target is not 'the block that was read and everything older'")
+	for j := 0; j < len(x.bl.space); j++ {
+		abs := x.bl.released + j
+		idx, ok := verifResolves(x, abs)
+		if uint64(abs) < want {
+			vnd.Assert(!ok, "a block at or before the corrupted block still resolves after the late verdict")
+		} else {
+			vnd.Assert(ok && idx == j, "a healthy block newer than the corrupted one stopped resolving after the late verdict")
+		}
+	}
+	vnd.Observe("q4", uint64(i), uint64(x.bl.released-releasedAtGet))
+}
